@@ -8,7 +8,7 @@
 From Coq Require Import List ZArith.
 From ReqV Require Import Model.Lifecycle Model.LifecycleH2 Model.LifecycleH3 Model.RetryLife Proofs.Reach
   Proofs.LifecycleProofs Proofs.LifecycleThms Proofs.LifecycleH2Proofs Proofs.LifecycleH3Proofs Proofs.RetryLifeProofs
-  Model.Bystander Proofs.BystanderProofs.
+  Model.Bystander Proofs.BystanderProofs Model.BackoffLife Proofs.BackoffLifeProofs.
 Import ListNotations.
 
 (* HTTP/1.1: wherever the context ended, once everything has settled the caller holds an error
@@ -219,6 +219,33 @@ Theorem C08_share_deadline_dropped_refuted :
   exists s, shrun false shinit [SCancelA CDeadline; SDialFails; SBSees] = Some s /\
             s_b s = BRet (Some (ECause CDeadline)).
 Proof. exact share_deadline_dropped_refuted. Qed.
+
+(* ---- the HTTP/2 transport's own re-send loop (REFUSED_STREAM / GOAWAY back-off 1 s, 2 s, 4 s ...) ---- *)
+
+Theorem C08_backoff_interruptible : forall s c,
+  b_phase s = PbBackoff -> b_ctx s = Some c ->
+  exists s', bstep true s TCtxWake = Some s' /\ b_phase s' = PbRet (Some (ECause c)) /\ b_net s' = b_net s.
+Proof. exact backoff_interruptible. Qed.
+Print Assumptions C08_backoff_interruptible.
+
+Theorem C08_backoff_no_new_attempt_after_cancel : forall intr s l s' c,
+  b_ctx s = Some c -> bstep intr s l = Some s' -> b_net s' = b_net s /\ b_ctx s' = Some c.
+Proof. exact backoff_no_new_attempt_after_cancel. Qed.
+Print Assumptions C08_backoff_no_new_attempt_after_cancel.
+
+Theorem C08_backoff_returns_within : forall s l s' c,
+  b_ctx s = Some c -> bwf s -> (forall c', l <> TCancel c') -> bstep true s l = Some s' ->
+  bmu s' < bmu s /\ bmu s <= 17 /\ bwf s'.
+Proof. exact backoff_returns_within. Qed.
+Print Assumptions C08_backoff_returns_within.
+
+Theorem C08_backoff_wf_reachable : forall intr ls s, brun intr binit ls = Some s -> bwf s.
+Proof. exact backoff_wf_reachable. Qed.
+Print Assumptions C08_backoff_wf_reachable.
+
+Theorem C08_backoff_pinned_not_interruptible : forall s,
+  b_phase s = PbBackoff -> bstep false s TCtxWake = None.
+Proof. exact backoff_pinned_not_interruptible. Qed.
 
 Example C08_nonvacuous :
   let c := mkCfg1 false true true in
